@@ -28,13 +28,26 @@ structure Holds (cfg : Cfg) : Prop where
       leaves the code's queue — hence the holder — untouched -/
   staleNoop : ∀ as s sid s', run cfg init as = some s → headSid s ≠ some sid →
       step cfg s (.release sid) = some s' → s'.queue = s.queue ∧ s'.holders = s.holders
+  /-- a release with any ID that is not the current head's (garbage, never issued, a waiter's)
+      changes nothing at all -/
+  rawNoop : ∀ as s id s', run cfg init as = some s →
+      step cfg s (.releaseRaw id) = some s' → s' = s
 
 theorem reach_inv (as : List Act) (s : St) (h : run noReset init as = some s) : Inv s :=
   LTS.inv_run (step noReset) Inv (fun s a s' hi hs => inv_step s a s' hi hs) init as s inv_init h
 
 /-- C15 holds for every schedule when guard IDs are never reused. -/
 theorem holds_noReset : Holds noReset := by
-  refine ⟨?_, ?_, ?_, ?_⟩
+  refine ⟨?_, ?_, ?_, ?_, ?_⟩
+  rotate_left 4
+  · intro as s id s' h hs
+    simp only [step] at hs
+    split at hs
+    · simp at hs
+    · rename_i hne
+      simp at hs
+      rw [inv_releaseRaw s (reach_inv as s h) id hne] at hs
+      exact hs.symm
   · intro as s h
     have := (reach_inv as s h).holders
     rw [this]; cases headSid s <;> simp
